@@ -6,7 +6,7 @@ import torch
 from kornia.augmentation._2d.intensity.base import IntensityAugmentationBase2D
 from kornia.augmentation.container import AugmentationSequential
 from kornia.augmentation.utils.param_validation import _range_bound
-from kornia.core import Tensor
+from torch import Tensor
 from torch.utils.data.datapipes.datapipe import IterDataPipe
 
 
